@@ -25,10 +25,12 @@ VARIANTS = ["MD5", "Md5", "SHA256", "Sha256", "BLAKE3", "Blake3", "SHA1", "sHa51
 
 def _read_sizes(rng, n):
     """a read-size plan: list of sizes (cycled) ; tiny sizes only for small inputs"""
-    kinds = ["all", "big", "page", "sniff", "mixed"]
+    kinds = ["all", "big", "page", "sniff", "mixed", "with-zero"]
     if n <= 6000:
         kinds += ["one", "seven", "random-small"]
     k = rng.choice(kinds)
+    if k == "with-zero":
+        return k, [rng.choice([1, 64, 4096]) if n <= 6000 else 4096, 0, rng.choice([512, 4096, 2**20])]
     if k == "all":
         return k, [-1]
     if k == "big":
@@ -62,7 +64,7 @@ class ShortReader(io.RawIOBase):
 
     def read(self, n=-1):
         left = len(self.data) - self.pos
-        if left <= 0:
+        if left <= 0 or n == 0:
             return b""
         want = left if n is None or n < 0 else min(n, left)
         k = want if self.rng.random() < 0.3 else self.rng.randrange(min(self.minimum, want), want + 1)
@@ -94,6 +96,12 @@ def _drain(stream, sizes):
         n = sizes[i % len(sizes)]
         i += 1
         b = stream.read(n)
+        if n == 0:
+            # a zero-length read returns nothing and is not the end of the data
+            assert b == b""
+            if all(s == 0 for s in sizes):
+                break
+            continue
         if not b:
             break
         out += b
@@ -138,7 +146,7 @@ def run_shard(ctx):
                     entry = "file_md5"
                 kind, sizes = _read_sizes(rng, len(data))
                 if lname == "md5-dos2unix":
-                    sizes = [s if (s == -1 or s >= 512) else 512 for s in sizes]
+                    sizes = [s if (s == -1 or s >= 512) else 512 for s in sizes if s != 0] or [512]
                     if -1 in sizes:
                         sizes = [2**20]  # the dos2unix stream asserts n >= 512
                     if entry == "stream":
